@@ -6,7 +6,8 @@
                                          (a linearisation of the observed calls — thread order and ticket order kept — on
                                          which the MVCC model gives every observed answer and the observed final contents),
                                          and, when the case is conflict-free, `MT.checkSerial` certifies a serial order
-           bad hang | bad panic | bad internal-error <call> | bad not-serialisable | bad not-serial | bad malformed-observation
+           bad hang | bad panic | bad internal-error <call> | bad not-serialisable | bad not-serial | bad not-alone |
+           bad malformed-observation
   Flags:   none (findings of this engine are attributed by region, see known_findings.d/C14.json)
 -/
 import AxVerif.Model.Serial
@@ -36,6 +37,10 @@ def parseNat (s : String) : Option Nat :=
   | some (.ofNat n) => some n
   | _ => none
 
+/-- the yield points of the database (`axmosdb::verif::sched::TAGS`) -/
+def yieldTags : List String :=
+  ["snapshot_taken", "commit_logged", "committed", "page_fetched", "tree_write", "leaf_released"]
+
 def parseTSetup : List String → List String → List Fill → Option TSetup
   | [], hw, fs =>
     match parseSetup hw.reverse {} with
@@ -46,6 +51,15 @@ def parseTSetup : List String → List String → List Fill → Option TSetup
       match parseNat (w.drop (if w.startsWith "cache=" then 6 else 5)).toString with
       | some _ => parseTSetup ws hw fs
       | none => none
+    else if w.startsWith "yield=" then
+      -- perturbation of the run only (tag:permille:max_us); no meaning for the model
+      match (w.drop 6).toString.splitOn ":" with
+      | [tag, a, b] =>
+        match parseNat a, parseNat b with
+        | some pm, some us =>
+          if yieldTags.contains tag && pm ≤ 1000 && us != 0 && us ≤ 50000 then parseTSetup ws hw fs else none
+        | _, _ => none
+      | _ => none
     else if w.startsWith "con=" then none
     else if w.startsWith "fill=" then
       match (w.drop 5).toString.splitOn ":" with
@@ -254,6 +268,28 @@ def conflictFree (progs : List (List COp)) : Bool :=
     | p :: rest => rest.all (fun q => !(touchesOf p).any (fun t => (touchesOf q).contains t)) && go rest
   go writers
 
+/-- statement-level family (Thm/C14 `statements_on_other_tables_do_not_interfere`, `statements_on_different_tables_commute`):
+    every thread issues autocommit `SELECT` / `INSERT` / `DELETE` statements only, and no table is touched by two threads -/
+def disjointAuto (progs : List (List COp)) : Bool :=
+  progs.all (fun p => p.all (fun o => match o with
+    | .auto (.upd _ _ _ _ _) => false
+    | .auto _ => true
+    | _ => false)) &&
+  (let rec go : List (List COp) → Bool
+    | [] => true
+    | p :: rest => rest.all (fun q => !(touchesOf p).any (fun t => (touchesOf q).contains t)) && go rest
+   go progs)
+
+/-- what thread `p` must have observed if its statements had run alone on the initial database, and what its tables
+    must contain at the end: by the theorems above, in every interleaving with the other threads -/
+def aloneOk (st : TSetup) (p : List COp) (cs : List OCall) (fins : List (String × String)) : Bool :=
+  let stmts := p.filterMap copStmt
+  let mine := (touchesOf p).eraseDups
+  let finalOps := mine.map (fun t => Op.auto (.sel t none))
+  let outs := (Spec.run st.base.tables (setupOpsT st ++ stmts.map Op.auto ++ finalOps)).2.drop (setupOpsT st).length
+  let expected := (cs.map (·.out)) ++ mine.map (fun t => (fins.find? (fun f => f.1 == t)).map (·.2) |>.getD "?")
+  outs.map showOutA == expected
+
 def budget : Nat := 8000
 
 def judge (line : String) : String :=
@@ -312,8 +348,11 @@ def judge (line : String) : String :=
                           else
                             let serial := verifySerial showOutA cat pending (serialSchedule pending sched)
                             let cf := conflictFree progs
+                            let da := disjointAuto progs
+                            let alone := !da || (progs.zip perThread).all (fun (p, cs) => aloneOk st p cs fins)
                             if cf && !serial then "bad not-serial"
-                            else s!"ok ## events={totalEvents pending} serial={serial} conflictfree={cf}"
+                            else if !alone then "bad not-alone"
+                            else s!"ok ## events={totalEvents pending} serial={serial} conflictfree={cf} disjointauto={da}"
                 | _, _ => "bad malformed-observation"
           | _ => "bad malformed-observation"
   | _ => "bad-op"
